@@ -5,6 +5,7 @@ mod doc;
 mod drive;
 mod extract;
 mod grammar;
+mod numbers;
 mod replay;
 mod rx;
 mod sortcases;
@@ -91,6 +92,9 @@ fn main() {
         }
         Some("conc-sched") => {
             println!("{}", conc::sched(&arg(&args, "--in").expect("--in"), &arg(&args, "--out").expect("--out")));
+        }
+        Some("numbers") => {
+            println!("{}", numbers::run(&arg(&args, "--in").expect("--in"), &arg(&args, "--out").expect("--out")));
         }
         Some("histories") => {
             let input = arg(&args, "--in").expect("--in");
